@@ -74,7 +74,7 @@ impl writer::Normalized for NullWriter {}
 const TAGS: &[&str] = &["a", "b", "c", "serial", "wip", "allow.skipped", "ü"];
 const WORDS: &[&str] = &["alpha", "beta", "gamma", "al(pha", "δelta", "a b", "", "aa", "a{2}", "xaay", "ab{1,2}"];
 // (patterns whose ONLY regex syntax is a counted repetition, a class or an escape are here on purpose)
-const REGEXES: &[&str] = &["alpha", "^b", "a$", "-1", "a|b", "^$", "l\\(p", ".", "ta-\\d+$", "a{2}", "b{1,2}", "[ab]{2}", "\\{2", "a{2}-"];
+const REGEXES: &[&str] = &["alpha", "^b", "a$", "-1", "a|b", "^$", "", "", "l\\(p", ".", "ta-\\d+$", "a{2}", "b{1,2}", "[ab]{2}", "\\{2", "a{2}-"];
 
 fn id_of(name: &str) -> usize {
     name.rsplit('-').next().and_then(|s| s.parse().ok()).unwrap_or(usize::MAX)
